@@ -332,6 +332,13 @@ def _split_where(sel, exp):
     return keep, uuid
 
 
+def _values_sig(values):
+    v = values.copy()
+    v.set("alias", None)
+    cols = [c.name for c in (values.args["alias"].columns if values.args.get("alias") else [])]
+    return repr(cols) + v.sql()
+
+
 def x_block_from(sel, exp, cte_names, values_alias):
     """a SELECT over one CTE or over VALUES -> (Coq block, uuid flag, Coq xref)"""
     if not isinstance(sel, exp.Select):
@@ -349,7 +356,14 @@ def x_block_from(sel, exp, cte_names, values_alias):
     if isinstance(frm.this, exp.Values):
         alias = frm.this.alias
         if alias not in values_alias:
-            raise rel.NotExportable(f"VALUES {alias} is not one of the case's inputs")
+            # a de-duplicated copy of a createDataFrame CTE carries a fresh alias for its VALUES (4720ddd): it is the
+            # input whose VALUES it repeats; accepted only under the uuid filter and when exactly one input has that text
+            sig = _values_sig(frm.this)
+            same = [i for a, i in values_alias.items() if a == "sig:" + sig or a.startswith("sig:" + sig + "#dup")]
+            if not uuid or len(same) != 1:
+                raise rel.NotExportable(f"VALUES {alias} is not one of the case's inputs")
+            values_alias = dict(values_alias)
+            values_alias[alias] = same[0]
         plain = sel.copy()
         rest = [c for c in conj if not (isinstance(c, exp.Boolean) and c.this is False)]
         if rest:
@@ -389,7 +403,7 @@ def x_body(node, exp, cte_names, values_alias, uuid=False):
     if frm is not None and isinstance(frm.this, exp.Subquery):
         # a de-duplicated set-operation CTE: SELECT <its columns> FROM (<set operation>) AS _dedup WHERE 'uuid' = 'uuid'
         inner = frm.this.this
-        if type(inner).__name__ not in klass or frm.this.alias != "_dedup":
+        if type(inner).__name__ not in klass or not frm.this.alias:
             raise rel.NotExportable("subquery that is not a de-duplicated set operation")
         for k, v in node.args.items():
             if v and k not in ("expressions", "from", "where"):
@@ -454,7 +468,8 @@ class Case:
         # another letter case than the left operand (Spark matches case-insensitively and keeps the left spelling)
         self.spec_cols = {m[i]: list(ns) for i, ns in (respell or {}).items() if i in m}
         # SQL identifiers are lower-cased by sqlframe; T2 compares names exactly, so it is applied to lower-case cases
-        self.t2 = _lower_names(self.tables, self.tree)
+        # ... and to cases whose inputs can be told apart by their VALUES text (a de-duplicated copy is recognised by it)
+        self.t2 = _lower_names(self.tables, self.tree) and len({repr(t) for t in self.tables}) == len(self.tables)
 
     def spec_tables(self):
         return [(self.spec_cols.get(i, cols), rows) for i, (cols, rows) in enumerate(self.tables)]
@@ -510,6 +525,8 @@ def _run_impl_once(case: Case, session, F, exp):
             d = session.createDataFrame(rows, schema_of(cols))
             dfs.append(d)
             aliases[d.expression.args["from"].this.alias] = i
+            sig = "sig:" + _values_sig(d.expression.args["from"].this)
+            aliases[sig + ("" if sig not in aliases else f"#dup{i}")] = i
         d = build(case.tree, dfs, F, {} if case.share else None)
         if not case.share and case.t2:
             try:
